@@ -195,6 +195,29 @@ def rule_b(ctx, f):
         for b, code, span in f.error_codes():
             if f.variant_at(b, dest) == "None":
                 none_codes.append((b, code, span))
+        # combinator idiom: checked_x(..).map(Val::Integer).ok_or[_else](OVERFLOW)
+        comb_none = None
+        me = "call:%s(" % c.name
+        for c2 in f.calls():
+            if c2.name.endswith("Option::<T>::map") and f.describe(c2.args[0]).startswith(me):
+                v2 = f.value_of_operand(c2.args[1])
+                if (v2 or {}).get("fn_def") == "mach::val::Val::Integer::{Ctor#0}":
+                    ok_some = True
+                    me2 = "call:%s(%s" % (c2.name, me)
+                    for c3 in f.calls():
+                        if not f.describe(c3.args[0]).startswith(me2):
+                            continue
+                        if c3.name.endswith("Option::<T>::ok_or_else"):
+                            v3 = f.value_of_operand(c3.args[1])
+                            cl = (v3 or {}).get("rv", {}).get("closure")
+                            g = f.crate.fns.get(cl)
+                            if g is not None:
+                                comb_none = [(c3.bb, code, sp) for _b, code, sp in g.error_codes()]
+                        elif c3.name.endswith("Option::<T>::ok_or"):
+                            comb_none = [(c3.bb, code, sp) for _b, code, sp in f.error_codes()
+                                         if f.dominates(_b, c3.bb)]
+        if comb_none is not None:
+            none_codes = comb_none
         ctx.check(ok_some, "C08.b", key + "/some", c.span,
                   "Some(v) of %s flows unchanged into Val::Integer" % meth,
                   "no Val::Integer built from the Some payload of %s" % meth)
@@ -356,6 +379,55 @@ BOUNDS = {
 WIDER_THAN_I16 = {"i32", "i64", "i128", "isize", "u16", "u32", "u64", "u128", "usize"}
 
 
+NUM_BOUNDS = {"i16": (-32768.0, 32767.0), "u16": (0.0, 65535.0), "u32": (0.0, 4294967295.0)}
+
+
+def _contains_range(f, b, src_op):
+    """(start, end) of a constant RangeInclusive<float> whose contains(&src) is known true at b"""
+    import struct
+    src = f.describe(src_op)
+    for c in f.calls_matching(r"RangeInclusive::<Idx>::contains$"):
+        if not f.describe(c.args[1]).endswith(src):
+            continue
+        me = "call:%s(" % c.name
+        held = any(cc[0] == "eq" and cc[2] is True and str(cc[1]).startswith(me) and src in str(cc[1])
+                   for cc in f.conds_at(b))
+        if not held:
+            continue
+        v = f.value_of_operand(c.args[0])
+        k = None
+        if v and v.get("k") == "const":
+            k = v["const"]
+        else:
+            p = op_place(c.args[0])
+            todo = [p["local"]] if p is not None else []
+            for _ in range(4):
+                nxt = []
+                for l in todo:
+                    for d in f.defs().get(l, []):
+                        if d[0] != "stmt":
+                            continue
+                        if d[3]["k"] == "use" and d[3]["op"].get("k") == "const":
+                            k = d[3]["op"]["const"]
+                        elif d[3]["k"] == "ref":
+                            nxt.append(d[3]["place"]["local"])
+                        elif d[3]["k"] == "use" and op_place(d[3]["op"]) is not None:
+                            nxt.append(op_place(d[3]["op"])["local"])
+                todo = nxt
+        if not k or "alloc_bytes" not in k:
+            continue
+        raw = bytes(k["alloc_bytes"])
+        ty = k.get("ty", "")
+        try:
+            if "RangeInclusive<f32>" in ty:
+                return struct.unpack("<ff", raw[:8])
+            if "RangeInclusive<f64>" in ty:
+                return struct.unpack("<dd", raw[:16])
+        except struct.error:
+            pass
+    return None
+
+
 def rule_c(ctx, f):
     n = 0
     ordn = {}
@@ -389,6 +461,12 @@ def rule_c(ctx, f):
             if any(x in bound for x in highs) and ((op == "Le" and truth) or
                                                    (op == "Gt" and not truth)):
                 hi = True
+        # the same two tests written as `(MIN as f..=MAX as f).contains(&x)`
+        if not (lo and hi):
+            rng = _contains_range(f, b, rv["op"])
+            if rng is not None and to in NUM_BOUNDS:
+                lo = lo or rng[0] >= NUM_BOUNDS[to][0]
+                hi = hi or rng[1] <= NUM_BOUNDS[to][1]
         unsigned_src = rv["from"].startswith("u")
         if is_narrow and unsigned_src:
             lo = True  # an unsigned source cannot be below i16::MIN
